@@ -309,7 +309,7 @@ func c06CrossRename(t *T) {
 		if rerr != nil || !bytes.Equal(b, data) {
 			t.Fail("rename", sig+":ok-but-wrong-bytes", fmt.Sprintf("Rename(%q,%q) returned nil; the destination holds %d bytes (%v), the source held %d", src, dst, len(b), rerr, len(data)))
 		}
-		if info != nil && info.Mode().Perm() != mode && !dstExisted {
+		if info != nil && info.Mode().Perm() != mode {
 			t.Fail("rename", sig+":ok-but-wrong-mode", fmt.Sprintf("Rename(%q,%q) returned nil; destination mode %04o, source mode %04o", src, dst, info.Mode().Perm(), mode))
 		}
 	} else if post != pre {
@@ -442,7 +442,23 @@ func c06SourceRemoveFailsProbe(t *T) {
 	}
 }
 
+// c06ExistingDstModeProbe: fault-free cross-mount rename onto an existing file with another mode.
+func c06ExistingDstModeProbe(t *T) {
+	defer beginTrial(t, false)()
+	w := buildMountWorld(t, []string{"a", "b"}, true)
+	must(t, hackpadfs.WriteFullFile(w.cores["a"].inner, "src", []byte("new contents"), 0644))
+	must(t, hackpadfs.WriteFullFile(w.cores["b"].inner, "dst", []byte("old destination"), 0600))
+	if err := w.mfs.Rename("a/src", "b/dst"); err != nil {
+		t.Fail("rename", "C06:cross-rename:fault=:dst-existed:failed", err.Error())
+	}
+	info, err := hackpadfs.Stat(w.cores["b"].inner, "dst")
+	if err != nil || info.Mode().Perm() != 0644 {
+		t.Fail("rename", "C06:cross-rename:fault=:dst-existed:ok-but-wrong-mode", fmt.Sprintf("destination after the rename: %v, %v; the source had mode 0644", info, err))
+	}
+}
+
 func init() {
+	RegisterProbe("c06-cross-rename-existing-dst-mode", c06ExistingDstModeProbe)
 	RegisterProbe("c06-cross-rename-existing-dst", c06ExistingDstProbe)
 	RegisterProbe("c06-cross-rename-source-remove-fails", c06SourceRemoveFailsProbe)
 	Register(&Engine{
